@@ -41,7 +41,8 @@ From NV Require Import Gen.Opcodes Verifier.Effect Src.Syntax Src.Eval.
 Import ListNotations.
 Local Open Scope Z_scope.
 
-Inductive hcell := HInt (z : Z) | HFun (vec addr : nat) | HVec (l : list nat).
+Inductive hcell := HInt (z : Z) | HFun (vec addr : nat) | HVec (l : list nat)
+  | HNil.   (* a record reference to nil (NIL_RECORD_REF: a vec_ref object whose target is nil_ptr) *)
 
 Definition hint (h : list hcell) (a : nat) : option Z :=
   match nth_error h a with Some (HInt z) => Some z | _ => None end.
@@ -249,6 +250,27 @@ Definition step (X : xinfo) (prog : list rinstr) (s : vstate) : sres :=
                     else SStuck
         | None => SStuck end
     | BYTECODE_COPYGLOB => SNext (mkst next (r_gp fr :: stk) h o fr)
+    | BYTECODE_RECORD =>
+        (* vm_execute_record: the n field cells, the first on top; the vector and its reference are ONE cell HVec *)
+        match zn (r_w0 i) with
+        | Some n => if Nat.leb n (length stk)
+                    then SNext (mkst next (length h :: skipn n stk) (h ++ [HVec (firstn n stk)]) o fr)
+                    else SStuck
+        | None => SStuck end
+    | BYTECODE_NIL_RECORD_REF => SNext (mkst next (length h :: stk) (h ++ [HNil]) o fr)
+    | BYTECODE_VECREF_VEC_DEREF =>
+        (* vm_execute_vecref_vec_deref with stack_level 0: the record reference on top STAYS, the field cell is
+           pushed (the emitter's SLIDE 1 1 removes the reference); nil raises nil_pointer, nothing popped *)
+        match zn (r_w0 i), zn (r_w1 i), stk with
+        | Some 0%nat, Some k, ar :: rest =>
+          match nth_error h ar with
+          | Some (HVec l) =>
+            match nth_error l k with
+            | Some a => SNext (mkst next (a :: stk) h o fr)
+            | None => SNext (mkst (hsearch (x_tab X) (v_ip s) 0) stk h o (set_exc fr ExIndexOob)) end
+          | Some HNil => SNext (mkst (hsearch (x_tab X) (v_ip s) 0) stk h o (set_exc fr ExNil))
+          | _ => SStuck end
+        | _, _, _ => SStuck end
     | BYTECODE_MK_INIT_ARRAY =>
         (* vm_execute_mk_init_array, one dimension: the size on top, below it the elements, the first on top; the
            array object and its reference are ONE cell here, HVec (the element cells' addresses) *)
